@@ -14,7 +14,15 @@ from cayleypy.puzzles import gap_puzzles as gp  # noqa: E402
 from cayleypy.puzzles.hungarian_rings import get_group  # noqa: E402
 
 # theorems `regenerated globe.py = specification` (CvProps/C16g.lean; translator harness/extract/pylean.py)
-GEN_THEOREMS = []
+GEN_THEOREMS = [
+    "Cv.C16g.help_cyclic_gen",
+    "Cv.C16g.globe_gens_gen",
+    "Cv.C16g.globe_puzzle_gen",
+    "Cv.C16g.globe_gens_gen_all",
+    "Cv.C16g.globe_puzzle_gen_all",
+    "Cv.C16g.globe_puzzle_create_zero",
+    "Cv.C16g.globe_puzzle_create",
+]
 GEN_THEOREMS_RINGS = []
 
 THEOREMS = [
